@@ -1,10 +1,10 @@
 package main
 
 import (
-	"os"
 	"fmt"
 	"go/constant"
 	"go/types"
+	"os"
 	"strings"
 
 	"golang.org/x/tools/go/ssa"
@@ -82,19 +82,19 @@ func specFail(format string, args ...interface{}) {
 
 // Env is the evaluation environment of a spec expression.
 type Env struct {
-	vc    *VC
-	st    *State // current state
-	old   *State // state old(...) refers to (nil: old not available)
-	vars  map[string]SV
-	pkg   *types.Package
-	frame *Frame // for loop invariants: locals of this frame are visible by source name
-	loop  *loopInfo
-	nq    *int
-	this  *SV
-	inOld bool            // evaluating under old(...): parameters denote their entry values
-	loopEntry *State // loop invariants: the state in which the loop was entered (for entry(...))
-	retFrame *Frame // postconditions on the body: the frame at the return statement (for final(x))
-	bound map[string]bool // names bound by quantifiers / pure-function parameters: never resolved as program variables
+	vc        *VC
+	st        *State // current state
+	old       *State // state old(...) refers to (nil: old not available)
+	vars      map[string]SV
+	pkg       *types.Package
+	frame     *Frame // for loop invariants: locals of this frame are visible by source name
+	loop      *loopInfo
+	nq        *int
+	this      *SV
+	inOld     bool            // evaluating under old(...): parameters denote their entry values
+	loopEntry *State          // loop invariants: the state in which the loop was entered (for entry(...))
+	retFrame  *Frame          // postconditions on the body: the frame at the return statement (for final(x))
+	bound     map[string]bool // names bound by quantifiers / pure-function parameters: never resolved as program variables
 }
 
 // bind sets a spec-level name (bound variable, "v", "sent", argN, recv) that must shadow program variables.
